@@ -21,9 +21,11 @@ Protocol (one line per request, ASCII):
   strip <text>                               CHText.strip_colors(text)
   term  <text>                               diagnostic: what a terminal shows (Lean `Sgr.interp` against the
                                              oracle's Python terminal; the real code is not involved)
+eff / nc letters: N None, F False, T True, 0 1 2 (ints), e "", x "x", l [], L [0], z 0.0, h 1.5 - the code's
+              contract is truthiness, the oracle requests an effect iff the value is truthy
 colour token: N (None) | s:<code points> | i:<int> | f:<decimal> (a float) | t:<num,num,..> ('-' = empty; a
               component with '.' is a float) | o (a bytes object)
-eff: five letters N/F/T (None/False/True) for bold, faint, underline, blink, crossed;  nc: 0/1
+eff: five flag letters for bold, faint, underline, blink, crossed;  nc: one flag letter
 strings: comma separated code points, '-' = empty.
 """
 import ast
@@ -37,6 +39,7 @@ READY = True
 THEOREMS = [
     "C09.sgr_std", "C09.strip_final", "C09.strip_class",
     "C09.mkSeq_total", "C09.valid_ok", "C09.invalid_raises", "C09.colour_domain", "C09.color_code",
+    "C09.flags_by_truthiness", "C09.flag_kinds_irrelevant",
     "C09.nocolor_no_esc", "C09.plain_no_esc",
     "C09.chunk_shows", "C09.chunk_resets", "C09.text_shows", "C09.text_invalid",
     "C09.strip_plain", "C09.strip_chunk", "C09.strip_render", "C09.strip_text",
@@ -46,7 +49,9 @@ THEOREMS = [
     "C09.bytes_same",
 ]
 RULE = ("fmt: every fg x bg pair of the 8 names, all 256 ints, all 216 cube triples, g0..g30 (each as fg and as bg), "
-        "all 3^5 effect settings, malformed values (ints/tuples out of range, wrong lengths, unknown and mangled names, "
+        "all 3^5 None/False/True effect settings, every kind of flag value (None False True 0 1 2 '' 'x' [] [0] 0.0 1.5) "
+        "at each of the five effects and at no_color for the text and the bytes formatter, all 12x12 pairs for two "
+        "flags, random mixes of kinds, malformed values (ints/tuples out of range, wrong lengths, unknown and mangled names, "
         "floats, tuples with float members, bytes), no_color with valid and invalid values, random ESC-free unicode texts; "
         "bytes: the same specs with random ESC-free payloads; cht: CHText of 0..7 parts (chunks of a small pool of "
         "formatters so that neighbours merge, plain strs, empty texts); seq: 2..6 calls in one process - a valid int/tuple "
@@ -295,18 +300,36 @@ def dec_color(tok):
     raise ValueError("bad colour token " + tok)
 
 
+# kinds of values for the five effect flags and for no_color (the code's contract is truthiness)
+FLAG_KINDS = "NFT012exlLzh"
+
+
+def flag_value(ch):
+    """a fresh Python value for a flag letter"""
+    return {"N": None, "F": False, "T": True, "0": 0, "1": 1, "2": 2, "e": "", "x": "x",
+            "l": [], "L": [0], "z": 0.0, "h": 1.5}[ch]
+
+
+def flag_on(ch):
+    """the statement: a flag is requested iff its value is true in Python's sense (independent table)"""
+    return ch in "T12xLh"
+
+
 def dec_eff(tok):
-    return {name: {"N": None, "F": False, "T": True}[ch] for name, ch in zip(EFFECTS, tok)}
+    return {name: flag_value(ch) for name, ch in zip(EFFECTS, tok)}
 
 
-def spec_tokens(fg, bg=None, eff="NNNNN", nc=0):
-    return "%s %s %s %d" % (enc_color(fg), enc_color(bg), eff, nc)
+def spec_tokens(fg, bg=None, eff="NNNNN", nc="F"):
+    """nc: a flag letter; the ints 0 / 1 are shorthand for False / True"""
+    if nc in (0, 1):
+        nc = "FT"[nc]
+    return "%s %s %s %s" % (enc_color(fg), enc_color(bg), eff, nc)
 
 
 def _kwargs(toks):
     kw = dec_eff(toks[2])
     kw["bg_color"] = dec_color(toks[1])
-    kw["no_color"] = toks[3] == "1"
+    kw["no_color"] = flag_value(toks[3])
     return dec_color(toks[0]), kw
 
 
@@ -661,7 +684,7 @@ def wanted(toks):
     a, b = wanted_colour(fg), wanted_colour(kw["bg_color"])
     if a[0] == "bad" or b[0] == "bad":
         return "bad", None
-    st = (a[1], b[1], tuple(kw[e] is True for e in EFFECTS))
+    st = (a[1], b[1], tuple(flag_on(ch) for ch in toks[2]))
     return ("either" if "either" in (a[0], b[0]) else "ok"), st
 
 
@@ -687,7 +710,7 @@ def _judge_call(op, a, rep, line):
     """one `fmt` / `bytes` call judged by the statement alone (whatever was called before it)"""
     m = _mod()
     verdict, st = wanted(a)
-    nc = a[3] == "1"
+    nc = flag_on(a[3])
     if nc:
         if verdict == "bad" and rep == "err ValueError":
             return None             # rejecting an invalid value also under no_color would satisfy the statement
@@ -735,7 +758,7 @@ def _palette_states(toks):
     for i in range(k):
         sp = toks[1 + 4 * i: 5 + 4 * i]
         verdict, st = wanted(sp)
-        if sp[3] == "1":
+        if flag_on(sp[3]):
             verdict, st = ("either" if verdict == "bad" else verdict), DEFAULT
         verdicts.append(verdict)
         states.append(st)
@@ -921,7 +944,7 @@ def oracle(case, replies):
                     expect.append((dec_str(p[4]), DEFAULT))
                     continue
                 verdict, st = wanted(p)
-                if p[3] == "1":
+                if flag_on(p[3]):
                     st = DEFAULT
                     if verdict == "bad":
                         either = True
@@ -1046,9 +1069,19 @@ def rand_malformed(rng):
 
 def rand_eff(rng):
     r = rng.random()
-    if r < 0.4:
+    if r < 0.35:
         return "NNNNN"
-    return "".join(rng.choice("NFT" if r < 0.8 else "NT") for _ in range(5))
+    if r < 0.8:
+        return "".join(rng.choice("NFT" if r < 0.65 else "NT") for _ in range(5))
+    return "".join(rng.choice(FLAG_KINDS) for _ in range(5))         # other kinds of values: 0 1 2 "" "x" [] [0] 0.0 1.5
+
+
+def rand_nc(rng, p_on=0.1):
+    """a no_color value: mostly real bools / None, sometimes another kind"""
+    on = rng.random() < p_on
+    if rng.random() < 0.6:
+        return "T" if on else rng.choice("FFN")
+    return rng.choice("T12xLh" if on else "NF0elz")
 
 
 def _case(line, kind):
@@ -1064,7 +1097,7 @@ def _emitted(fg, bg=None, eff="NNNNN"):
             codes.append("%d" % (base + int(w[1:])))
         elif w[0] == "x":
             codes.append("%d:5:%s" % (base + 8, w[1:]))
-    codes += [c for c, e in zip("12459", eff) if e == "T"]
+    codes += [c for c, e in zip("12459", eff) if flag_on(e)]
     return ESC + "[" + ";".join(codes) + "m" if codes else ""
 
 
@@ -1152,7 +1185,7 @@ def gen_seq(rng):
                 ents.append(_entry(rng, rng.choice("FFB"), *rng.choice([(val, None), (None, val)])))
             else:
                 fg, bg, eff = rng.choice(pool)
-                ents.append(_entry(rng, rng.choice("FFFB"), fg, bg, eff, int(rng.random() < 0.05)))
+                ents.append(_entry(rng, rng.choice("FFFB"), fg, bg, eff, rand_nc(rng, 0.05)))
         kind = "seq-random"
     return "seq %d %s" % (len(ents), " ".join(ents)), kind
 
@@ -1288,6 +1321,23 @@ def gen_cases(rng, tier):
         yield _case("bytes %s %s" % (spec_tokens(rand_valid_color(rng), rand_valid_color(rng), eff),
                                      enc_bytes(bytes(rng.choice([65, 109, 59, 0, 200, 255, 91]) for _ in range(rng.randrange(4))))),
                     "bytes")
+    # --- every kind of value for every flag (five effects and no_color), text and bytes formatter
+    for pos in range(6):
+        for kind in FLAG_KINDS:
+            eff = "".join(kind if i == pos else "N" for i in range(5))
+            nc = kind if pos == 5 else "F"
+            for fg, bg in ((None, None), ("RED", None), (123, "g5")):
+                yield _case("fmt %s %s" % (spec_tokens(fg, bg, eff, nc), t0), "flag-kinds")
+                yield _case("bytes %s %s" % (spec_tokens(fg, bg, eff, nc), enc_bytes(b"ab")), "flag-kinds")
+            if pos == 5:
+                yield _case("fmt %s %s" % (spec_tokens("bogus", 256, "TTTTT", nc), t0), "flag-kinds")
+                yield _case("bytes %s %s" % (spec_tokens("bogus", 256, "TTTTT", nc), enc_bytes(b"ab")), "flag-kinds")
+    for k1 in FLAG_KINDS:
+        for k2 in FLAG_KINDS:
+            yield _case("fmt %s %s" % (spec_tokens("BLUE", None, k1 + "N" + k2 + "NN", "F"), t0), "flag-kinds")
+            yield _case("fmt %s %s" % (spec_tokens("BLUE", None, "NNN" + k1 + "T", k2), t0), "flag-kinds")
+            yield _case("seq 2 F %s - B %s -" % (spec_tokens(5, None, "N" + k1 + "NN" + k2, k2),
+                                                 spec_tokens(5, None, "N" + k1 + "NN" + k2, k2)), "flag-kinds")
     # --- malformed values
     for v in MALFORMED + PADDED:
         for eff, nc in (("NNNNN", 0), ("TNNNT", 0), ("NNNNN", 1)):
@@ -1303,15 +1353,15 @@ def gen_cases(rng, tier):
         fg, bg = (v, rand_valid_color(rng)) if rng.random() < 0.5 else (rand_valid_color(rng), v)
         if rng.random() < 0.15:
             fg, bg = rand_malformed(rng), rand_malformed(rng)
-        yield _case("fmt %s %s" % (spec_tokens(fg, bg, rand_eff(rng), int(rng.random() < 0.15)), enc_str(rand_text(rng, 4))),
+        yield _case("fmt %s %s" % (spec_tokens(fg, bg, rand_eff(rng), rand_nc(rng, 0.15)), enc_str(rand_text(rng, 4))),
                     "fmt-malformed")
     # --- random valid
     for _ in range(1500 if not thorough else 100000):
-        nc = int(rng.random() < 0.1)
+        nc = rand_nc(rng, 0.1)
         yield _case("fmt %s %s" % (spec_tokens(rand_valid_color(rng), rand_valid_color(rng), rand_eff(rng), nc),
-                                   enc_str(rand_text(rng, 30 if thorough else 12))), "fmt-nocolor" if nc else "fmt-random")
+                                   enc_str(rand_text(rng, 30 if thorough else 12))), "fmt-nocolor" if flag_on(nc) else "fmt-random")
     for _ in range(300 if not thorough else 20000):
-        nc = int(rng.random() < 0.1)
+        nc = rand_nc(rng, 0.1)
         payload = bytes(rng.choice([rng.randrange(256), 65, 109, 59, 58, 91]) for _ in range(rng.randrange(0, 10)))
         payload = payload.replace(b"\x1b", b"?")
         yield _case("bytes %s %s" % (spec_tokens(rand_valid_color(rng), rand_valid_color(rng), rand_eff(rng), nc),
@@ -1339,7 +1389,7 @@ def gen_cases(rng, tier):
                 bad = True
             else:
                 fg, bg, eff = rng.choice(pool)
-                toks.append("%s %s" % (spec_tokens(fg, bg, eff, int(rng.random() < 0.07)), enc_str(text)))
+                toks.append("%s %s" % (spec_tokens(fg, bg, eff, rand_nc(rng, 0.07)), enc_str(text)))
         yield _case("cht %d %s" % (n, " ".join(toks)) if n else "cht 0", "cht-malformed" if bad else "cht-%d" % min(n, 4))
     # --- several calls in one process (validation must not remember earlier calls)
     for v in (list(range(0, 256, 5)) if not thorough else list(range(256))):
@@ -1413,6 +1463,14 @@ def search_cases(rng, tier):
                 yield _case("seq 2 F %s - F %s -" % (spec_tokens((r, g, b)), spec_tokens((float(r), g, b))), "search-seq")
     for line in small_histories(4):
         yield _case(line, "search-hist")
+    for pos in range(6):
+        for kind in FLAG_KINDS:
+            for other in "NTF1":
+                eff = "".join(kind if i == pos else other for i in range(5))
+                nc = kind if pos == 5 else "F"
+                for fg, bg in ((None, None), ("RED", "g3"), (7, None)):
+                    yield _case("fmt %s %s" % (spec_tokens(fg, bg, eff, nc), enc_str("x")), "search-flags")
+                    yield _case("bytes %s %s" % (spec_tokens(fg, bg, eff, nc), enc_bytes(b"x")), "search-flags")
 
 
 def corpus():
@@ -1594,13 +1652,14 @@ LEVEL_TEXT = ("Proved in Lean for all colour values (incl. floats and float tupl
               "operations) and at every observation of any mutation history of one object; strip(render) = plain text "
               "(also embedded in other text); no_color and plain formatters emit nothing; the bytes formatter emits the "
               "same ASCII sequences; mkSeq succeeds exactly on {8 names, 0-255, int (r,g,b) in [0,5]^3 -> 16+36r+6g+b, "
-              "g<digits> <= 23 -> 232+N} and raises ValueError otherwise, wherever the call stands in a sequence of calls "
+              "g<digits> <= 23 -> 232+N} and raises ValueError otherwise; effect flags and no_color act through Python's truth "
+              "value only (any kind of value; text and bytes formatters agree), wherever the call stands in a sequence of calls "
               "(the model of a process carries nothing but the formatter objects from call to call); the id-for-prefix "
               "abstraction of the CHText model is proved sound for the palettes the driver accepts. model = code by "
               "differential run (exhaustive over names x names, 256 ints, 216 triples, g0-g30, 3^5 effect settings, "
               "int/float pairs, small histories; random texts, part lists, call sequences, histories, operation trees, "
               "strings with ESC fragments).")
-LEVEL_NOTE = ("Kernel-checked: all 27 pinned theorems. Rest on the tie only: that the code has no state between calls / "
+LEVEL_NOTE = ("Kernel-checked: all 29 pinned theorems. Rest on the tie only: that the code has no state between calls / "
               "renderings (the model has none by construction - C09.calls_stateless, C09.hist_shows say what that means; "
               "the seq and hist streams and the oracle's per-call judgement test it), that CHText operations are the ones "
               "of Model/CHText.lean (C08's theorems), Python's re, str.encode, int(). Trusted: Lean kernel, "
